@@ -298,3 +298,39 @@ Proof.
     - destruct (list_eqb [ch] [rfc_pad]) eqn:L; [|reflexivity]. apply list_eqb_spec in L. congruence. }
   rewrite X. reflexivity.
 Qed.
+
+(* ---- error classes: the decoder raises nothing but ValueError (in particular the regrouping loop never runs
+        out of fuel, because every accepted symbol is below 32) ---- *)
+Lemma mapM_rev_index_digits alph : length alph = N.to_nat 32 -> forall body ds,
+  mapM (rev_index alph) body = Ok ds -> digits_ok 32 ds.
+Proof.
+  intros Hl body ds M.
+  exact (proj1 (Lemmas.Base58.mapM_sym_index_spec alph 32 Hl r32 body ds M)).
+Qed.
+
+Theorem b32decode_err s e : b32decode s = Err e -> e = ValueError.
+Proof.
+  unfold b32decode. destruct (negb _); [unfold Err; congruence|].
+  destruct (mapM (rev_index rfc_alphabet) _) as [ds|e1] eqn:M; cbn [bind].
+  - destruct (negb _); [unfold Err; congruence|].
+    pose proof (mapM_rev_index_digits rfc_alphabet rfc_len _ _ M) as Hds.
+    destruct (Lemmas.ConvertBits.convert_floor_spec 5 8 p5 p8 ds Hds) as (l & bits & pend & _ & _ & _ & _ & _ & E).
+    rewrite E. discriminate.
+  - intros E. assert (e1 = e) by (unfold Err in E; congruence). subst.
+    apply Lemmas.Base58.mapM_err_exists in M. destruct M as (x & _ & Hx).
+    eapply Lemmas.Base58.sym_index_err; exact Hx.
+Qed.
+
+Theorem decode_err s custom e : decode s custom = Err e -> e = ValueError.
+Proof.
+  unfold Base32.decode. destruct custom as [c|].
+  - destruct (existsb _ _); cbn [bind Err Ok]; [intros E; unfold Err in E; congruence|].
+    unfold translate. destruct (_ =? _)%nat; cbn [bind Ok Err]; [apply b32decode_err|intros E; unfold Err in E; congruence].
+  - cbn [bind Ok]. apply b32decode_err.
+Qed.
+
+(* b32decode is not canonical: left-over bits are not checked (RFC 4648 section 3.5 leaves this to the
+   implementation); "AB======" and "AA======" both decode to 0x00 *)
+Example b32decode_noncanonical :
+  b32decode [65; 66; 61; 61; 61; 61; 61; 61] = Ok [0] /\ b32encode [0] = Ok [65; 65; 61; 61; 61; 61; 61; 61].
+Proof. split; vm_compute; reflexivity. Qed.
